@@ -297,6 +297,20 @@ def build(recipe: dict):
             temp_h = temp_h.copy()
             sel = gt.choice(np.arange(24, len(temp_h) - 24), size=max(2, len(temp_h) // 400), replace=False)
             temp_h[sel] = np.nan
+            # the same weather gaps whatever `observed` looks like: irradiance runs, absent rows, a ragged first day
+            if ghi is not None and len(ghi) > 72:
+                ghi = ghi.copy()
+                for st in gt.choice(np.arange(30, len(ghi) - 30), size=max(1, len(ghi) // 1500), replace=False):
+                    ghi[st:st + 5] = np.nan
+            if len(hidx) > 72:
+                keep = np.ones(len(hidx), dtype=bool)
+                keep[gt.choice(np.arange(30, len(hidx) - 30), size=max(2, len(hidx) // 800), replace=False)] = False
+                st = int(gt.integers(40, len(hidx) - 40))
+                keep[st:st + 4] = False
+                keep[:int(gt.integers(0, 7))] = False
+                hidx, y, temp_h = hidx[keep], y[keep], temp_h[keep]
+                if ghi is not None:
+                    ghi = ghi[keep]
     return _hourly_ctor(recipe, hidx, y, temp_h, ghi, electric, obs)
 
 
